@@ -4,7 +4,7 @@
 (* (at_round r, after_step s) is literally "the state after 4 r + s + 1 transitions".                                  *)
 (* (M): decrypt(encrypt(block)) = block on every behaviour; every inverse operation inverts its operation on every state *)
 (* met; FIPS-197 known answers (ASSUME).                                                                              *)
-EXTENDS AES, Json, IOUtils
+EXTENDS SelAES, Json, IOUtils
 Inputs == JsonDeserialize(IOEnv.CASES)          \* sequence of [key |-> bytes, block |-> 16 bytes]
 VARIABLES case, phase, pos, st, sched, trailE, trailD
 vars == <<case, phase, pos, st, sched, trailE, trailD>>
@@ -35,6 +35,13 @@ InversesInvert == /\ InvSubBytes(SubBytes(st)) = st /\ InvShiftRows(ShiftRows(st
 \* the master key is recovered from every window of Nk consecutive schedule words (C10 lemma), checked once per behaviour
 WindowsRecoverSchedule == (phase = "enc" /\ pos = 1) =>
     \A a \in 0..(4 * (Nr + 1) - Nk(Key)) : ScheduleFromWindow(Nk(Key), 4 * (Nr + 1), a, SubSeq(sched, a + 1, a + Nk(Key))) = sched
+\* C07 lemma: every ready-made selection function, fed with the input it is documented to take and the true key word, gives the
+\* word of the real cipher state its name designates - for every word, on every behaviour
+SelectionLemma == phase = "done" =>
+    \A f \in 1..Len(SelFns), w \in 1..16 :
+        LET fn == SelFns[f]  ct == trailE[4 * (Nr + 1)]  in == IF UsesCiphertext(fn) THEN ct ELSE Inputs[case].block
+            kw == RoundKey(sched, ExpectedKeyRound(fn, Nr))[w]
+        IN Hyp(fn, in, kw, w) = Target(fn, trailE, Inputs[case].block, Nr, w)
 Emit == phase = "done" => PrintT(<<"EMIT", ToJson([case |-> case, enc |-> trailE, dec |-> trailD, sched |-> sched])>>)
 
 \* ---- model sanity: FIPS-197 known answers ------------------------------------------------------------------------------------
